@@ -24,7 +24,12 @@ THEOREMS = [
     "PorepyVerif.C09.all_converged_hits_every_scheduled",
     "PorepyVerif.C09.constant_dt_times",
     "PorepyVerif.C09.constant_dt_failure_raises",
-    "PorepyVerif.C09.constant_dt_hits_partial",
+    "PorepyVerif.C09.constant_dt_hits",
+    "PorepyVerif.C09.constant_dt_finishes",
+    "PorepyVerif.C09.constant_dt_run_hits_every_scheduled",
+    "PorepyVerif.C09.constant_dt_hits_of_matches",
+    "PorepyVerif.C09.run_terminates",
+    "PorepyVerif.C09.accepted_steps_bounded",
 ]
 LEAN_MODULES = ["PorepyVerif.C09.Props"]
 AUDIT = "PorepyVerif/C09/Audit.lean"
@@ -48,7 +53,10 @@ EXPLANATION = ("FULL (exact arithmetic): model = TimeManager state machine + tim
                "initial step fits the first scheduled interval, non-negative tolerances, positive minimal step (or positive factors) and EVERY outcome tape: "
                "strict increase, never past the final time, every scheduled time hit when the loop ends (and all earlier ones at any time: invariant "
                "idx_points_to_next), step bounds, rewind-or-raise, recomputation bounded, no IndexError, liveness for converging tapes when dt_min > 0. "
-               "Constant-dt mode (outside the statement): arithmetic times, failure raises, hits_partial under an explicit compatibility hypothesis. "
+               "Termination: run_terminates (any tape, failures included, ends after (recomp_max+1)*((final-t0)/dt_min+len-1) outcomes), accepted_steps_bounded. "
+               "Constant-dt mode (outside the statement, now FULL): constant_dt_hits — constructor-valid parameters with SmallTol (2*(atol+rtol*|v|) < dt at all simulated "
+               "times and the final time, decidable) hit every scheduled time (pigeonhole proof from the constructor's match count), with a decide counterexample "
+               "showing SmallTol is needed; arithmetic times, finishing, failure raises. "
                "Correspondence replays every call the real loop makes on the real TimeManager (final_time_reached, increase_time, increase_time_index, "
                "compute_time_step) on the model and compares time, dt, time_index, _recomp_num, _scheduled_idx, _is_about_to_hit_schedule, returned "
                "value / raised error kind after every call, exactly on dyadic inputs; plus the model's own loop against the real loop's summary.")
@@ -446,6 +454,8 @@ def _valid_params(p):
 def oracle(case):
     """The property statement checked directly on the real TimeManager driven by the real time loop."""
     p = case["p"]
+    if case["kind"] == "loop" and p["constant_dt"]:
+        return _oracle_constant(case)
     if case["kind"] != "loop" or not _valid_params(p):
         return None
     try:
@@ -506,6 +516,48 @@ def oracle(case):
                 return {"what": f"{consecutive} consecutive failed steps without an error (recomp_max={p['recomp_max']}) ({short})", "key": "raise-missing"}
             if abs(st["t_after"] - st["t_prev"]) > (0.0 if exact and _exact_rewind(st) else 1e-9 * max(1.0, abs(st["t_prev"]))):
                 return {"what": f"failed step {i} left the clock at {st['t_after']} instead of the last accepted time {st['t_prev']} ({short})", "key": "no-rewind"}
+    return None
+
+
+def _small_tol(p):
+    """`SmallTol` of the Lean statement, decided exactly on the case."""
+    s = [F(x) for x in p["schedule"]]
+    dt, r, a = F(p["dt_init"]), F(p["rtol"]), F(p["atol"])
+    if dt <= 0 or len(s) < 2:
+        return False
+    n = max(0, math.ceil((s[-1] + dt - s[0]) / dt))
+    if n > 5000:
+        return False
+    return all(2 * (a + r * abs(s[0] + i * dt)) < dt for i in range(n)) and 2 * (a + r * abs(s[-1])) < dt
+
+
+def _oracle_constant(case):
+    """Constant step: if the constructor accepts the parameters and the tolerance is small against the step
+    (theorem constant_dt_hits), a loop of converged steps that ends has matched every scheduled time
+    (np.isclose(y, a), the constructor's orientation), with times t0 + k*dt; a failed step raises ValueError."""
+    p = case["p"]
+    try:
+        tm = _construct(p)
+    except Exception:
+        return None
+    status, accepted, steps = _real_loop(tm, case["outcomes"])
+    sched = [_fl(x) for x in p["schedule"]]
+    rtol, atol, dt = _fl(p["rtol"]), _fl(p["atol"]), _fl(p["dt_init"])
+    short = f"constant dt={dt} schedule={sched} rtol={rtol} atol={atol} outcomes={case['outcomes'][:12]}"
+    failed = [i for i, o in enumerate(case["outcomes"][: len(steps)]) if o < 0]
+    if failed:
+        if status != "raised:ValueError" or len(steps) != failed[0] + 1:
+            return {"what": f"constant dt: failed step {failed[0]} did not end the loop with ValueError (status {status}) ({short})", "key": "constant-failure-no-error"}
+        return None
+    if status not in ("finished", "running"):
+        return {"what": f"constant dt: loop of converged steps ended with {status} ({short})", "key": "unexpected-exception:" + status.split(":")[1]}
+    for k, a in enumerate(accepted):
+        if abs(a - (sched[0] + k * dt)) > 1e-9 * max(1.0, abs(a)):
+            return {"what": f"constant dt: accepted time {a} is not t0 + {k}*dt ({short})", "key": "constant-times-not-arithmetic"}
+    if status == "finished" and _small_tol(p):
+        for k, y in enumerate(sched):
+            if not any(_isclose(y, a, rtol, atol) or abs(a - y) <= 1e-9 * max(1.0, abs(y)) for a in accepted):
+                return {"what": f"constant dt: scheduled time {y} (index {k}) was never hit; accepted={accepted[-6:]} ({short})", "key": "constant-missed-scheduled"}
     return None
 
 
